@@ -250,19 +250,48 @@ func C05(c *Ctx) {
 				idParam = p
 			}
 		}
-		es := condEdges(bm, func(f core.Fact, ifi *ssa.If) (bool, int) {
+		pickBegin := func(f core.Fact, ifi *ssa.If) (bool, int) {
 			if f.Kind == core.FEqConst && f.Field == "GlobalState" && f.Const == "0" {
 				return true, holdsEdge(f)
 			}
 			return false, 0
-		})
-		nb := c.behindEdges("R05.2", "BeginMultiTXs", bm, es, func(in ssa.Instruction) bool {
+		}
+		// the key is the joining child's id: the parameter, or the field of a context struct BeginMultiTXs stored it in
+		isJoinID := func(k ssa.Value) bool {
+			k = core.Strip(k)
+			if idParam != nil && k == ssa.Value(idParam) {
+				return true
+			}
+			if u, ok := k.(*ssa.UnOp); ok {
+				if fa, ok := u.X.(*ssa.FieldAddr); ok {
+					if vals, ok := core.CtxFieldValues(fa); ok && len(vals) > 0 {
+						for _, cv := range vals {
+							if idParam == nil || core.Strip(cv) != ssa.Value(idParam) {
+								return false
+							}
+						}
+						return true
+					}
+				}
+			}
+			return false
+		}
+		isJoinBegin := func(in ssa.Instruction) bool {
 			mu, ok := in.(*ssa.MapUpdate)
-			if !ok || !isChildMap(mu.Map) || idParam == nil || core.Strip(mu.Key) != ssa.Value(idParam) {
+			if !ok || !isChildMap(mu.Map) || !isJoinID(mu.Key) {
 				return false
 			}
 			return enumName(mu.Value) == "TransactionStatus_BEGIN"
-		}, "GlobalState == BEGIN", "joining child set to BEGIN")
+		}
+		nb := c.behindEdges("R05.2", "BeginMultiTXs", bm, condEdges(bm, pickBegin), isJoinBegin, "GlobalState == BEGIN", "joining child set to BEGIN")
+		if nb == 0 {
+			// the join branch may have been extracted (joinGlobalTx)
+			for _, call := range core.Calls(bm) {
+				if h := core.StaticCallee(call); h != nil && h != bm && len(h.Blocks) > 0 && core.PkgOf(h) == core.PkgOf(bm) && len(sites(h, isJoinBegin)) > 0 {
+					nb += c.behindEdges("R05.2", "BeginMultiTXs/"+h.Name(), h, condEdges(h, pickBegin), isJoinBegin, "GlobalState == BEGIN", "joining child set to BEGIN")
+				}
+			}
+		}
 		r.Floor("R05.2", "joining-child BEGIN assignments", nb, 1)
 	}
 
